@@ -330,7 +330,7 @@ class Run:
         """What the determinism re-run compares: the structure of the run (who ran, who was eligible, which points were
         passed, how each step ended, returned results, exception types, the task's view of the shared state).  Free
         text (exception messages) is left out: it may quote values the implementation stores, e.g. timestamps."""
-        keep = ("ev", "kind", "info", "passed", "flags", "result", "type", "killed")
+        keep = ("ev", "kind", "info", "passed", "flags", "result", "type", "killed", "blocked_by_long_pause")
         return [self.status, self.obs0,
                 [[s.w, list(s.eligible), {k: s.ev[k] for k in keep if k in s.ev}, s.blocked, s.obs] for s in self.steps]]
 
@@ -392,21 +392,30 @@ class Group:
             if ev.get("ev") != "reset":
                 raise SchedError("reset answered %r" % (ev,))
 
-    def run(self, n, prefix, fresh, observe, strict=False, lazy=True):
+    def run(self, n, prefix, fresh, observe, strict=False, lazy=True, long_pause=None):
         """Execute one schedule: forced choices `prefix`, then (unless strict) lowest-eligible-first.
 
         lazy=True: a worker's first step is [prologue + first point] (see module docstring).  lazy=False: its first step
         is the prologue alone (it pauses AT its first point), for initial states in which the prologue does not commute
         with the other workers' steps (e.g. it reads a schema another worker may change).
 
-        fresh(group) -> arg handed to every worker's wk_run;  observe(group) -> JSON-able view of the shared state.
+        fresh(group) -> arg handed to every worker's wk_run (a dict), or a list with one arg per worker (actors of
+        different kinds);  observe(group) -> JSON-able view of the shared state.
+
+        long_pause(point_event) -> True if a worker paused at that point stands for an unboundedly long computation
+        (not for a momentary preemption).  A granted worker that reports 'blocked' while every other paused worker is
+        in a long pause was enabled and really failed (no waiting within a bounded timeout would have helped): the
+        step is NOT pruned, its event gets 'blocked_by_long_pause'.  Blocked by a worker in an ordinary pause: not
+        enabled, schedule infeasible, as before.
         """
         arg = fresh(self)
         run = Run(n, prefix)
         run.obs0 = observe(self)
+        args = arg if isinstance(arg, list) else [arg] * n
         status = ["idle"] * n
         count = [0] * n
         final = [None] * n
+        paused_at = [None] * n
         try:
             depth = 0
             while True:
@@ -426,7 +435,7 @@ class Group:
                     w = eligible[0]
                 wk = self.workers[w]
                 if status[w] == "idle":
-                    wk.send({"cmd": "run", "arg": arg, "lazy": bool(lazy)})
+                    wk.send({"cmd": "run", "arg": args[w], "lazy": bool(lazy)})
                 else:
                     wk.send({"cmd": "go"})
                 status[w] = "running"
@@ -438,12 +447,17 @@ class Group:
                     status[w] = "idle"               # a fresh worker took its place
                 elif kind == "point":
                     status[w] = "paused"
+                    paused_at[w] = ev
                 elif kind in ("done", "exc"):
                     status[w] = kind
                     final[w] = ev
                 else:
                     raise SchedError("unexpected event %r" % (ev,))
                 blocked = "blocked" in ev.get("flags", ()) and others_mid
+                if blocked and long_pause is not None and not ev.get("killed") and all(
+                        long_pause(paused_at[o]) for o in range(n) if o != w and status[o] == "paused"):
+                    blocked = False
+                    ev["blocked_by_long_pause"] = True
                 run.steps.append(Step(w, eligible, ev, blocked, observe(self)))
                 depth += 1
                 if blocked:
@@ -638,7 +652,7 @@ class Exploration:
         return sorted(p for p, (el, bl) in self.nodes.items() if el and set(el) == bl)
 
 
-def explore(pool, n, fresh, observe, rerun=True, lazy=True):
+def explore(pool, n, fresh, observe, rerun=True, lazy=True, long_pause=None):
     """All interleavings of n workers' steps (stateless DFS with prefix replay, points discovered dynamically)."""
     ex = Exploration(n)
     lock = threading.Lock()
@@ -649,7 +663,7 @@ def explore(pool, n, fresh, observe, rerun=True, lazy=True):
             if ex.runs > MAX_SCHEDULES:
                 ex.capped = "more than %d schedule runs for N=%d" % (MAX_SCHEDULES, n)
                 return []
-        run = group.run(n, prefix, fresh, observe, lazy=lazy)
+        run = group.run(n, prefix, fresh, observe, lazy=lazy, long_pause=long_pause)
         sched = run.schedule
         with lock:
             for d, s in enumerate(run.steps):
@@ -660,7 +674,7 @@ def explore(pool, n, fresh, observe, rerun=True, lazy=True):
                     node[1].add(s.w)
         if run.status == "complete":
             if rerun:
-                again = group.run(n, sched, fresh, observe, strict=True, lazy=lazy)
+                again = group.run(n, sched, fresh, observe, strict=True, lazy=lazy, long_pause=long_pause)
                 with lock:
                     ex.reruns += 1
                     if again.observations() != run.observations():
